@@ -363,6 +363,39 @@ def events(cfg):
     return h
 
 
+def fp_lemma(eb, sb, c, timeout_ms=60000):
+    """Side lemma (IEEE arithmetic; the system runs use a real-valued clock): advance_progress computes the real-time progress
+    as ceil(rt_passed / rt_factor) in floating point.  For the pacing bound it must not exceed the exact value: for finite
+    a >= 0, f > 0 and an integer c, RNE(a / f) > c (so the progress is at least c + 1) implies a > f * c exactly.  Decided by z3
+    as a pure QF_FP query in the format (eb, sb); the exact product f * c is formed in a wider format (eb + 4, 2 sb + 8) where it
+    is exact for c < 2^8.  The verdict is a side result: 'unsat' = the lemma holds for that format and c."""
+    def h(eng):
+        import z3
+        sort = z3.FPSort(eb, sb)
+        wide = z3.FPSort(eb + 4, 2 * sb + 8)
+        a, f = z3.FP('a', sort), z3.FP('f', sort)
+        sv = z3.Solver()
+        sv.set('timeout', timeout_ms)
+        sv.add(z3.Not(z3.fpIsNaN(a)), z3.Not(z3.fpIsInf(a)), z3.Not(z3.fpIsNaN(f)), z3.Not(z3.fpIsInf(f)))
+        sv.add(z3.fpGEQ(a, z3.FPVal(0.0, sort)), z3.fpGT(f, z3.FPVal(0.0, sort)))
+        sv.add(z3.fpGT(z3.fpDiv(z3.RNE(), a, f), z3.FPVal(float(c), sort)))
+        aw, fw = z3.fpToFP(z3.RNE(), a, wide), z3.fpToFP(z3.RNE(), f, wide)
+        sv.add(z3.fpLEQ(aw, z3.fpMul(z3.RNE(), fw, z3.FPVal(float(c), wide))))
+        import time as _t
+        t0 = _t.perf_counter()
+        r = str(sv.check())
+        eng.stats.queries += 1
+        eng.stats.solver_s += _t.perf_counter() - t0
+        if r == 'unsat':
+            eng.stats.unsat += 1
+        elif r == 'sat':
+            eng.stats.sat += 1
+            m = sv.model()
+            return ('fp-lemma-sat', {'nontrivial': False, 'model': str(m)})
+        return ('fp-lemma-' + r, {'nontrivial': False})
+    return h
+
+
 def jobs(tier):
     q = tier == 'quick'
     out = []
@@ -431,6 +464,11 @@ def jobs(tier):
             out.append(('pacing', dict(cfgc, late=True)))
             out.append(('pacing', dict(cfgc, f='1/2')))
     js = []
+    # IEEE side lemma of the progress computation (see fp_lemma): single precision for c = 1..6, double precision for c = 1 (2, 4 thorough)
+    for (eb, sb, name), cs in ((((8, 24, 'single'), (1, 2, 3, 4, 5, 6))), ((11, 53, 'double'), (1,) if q else (1, 2, 4))):
+        for c in cs:
+            js.append({'id': f'fp_lemma|{name}|c={c}', 'harness': 'vk.kernels.c17:fp_lemma', 'params': {'eb': eb, 'sb': sb, 'c': c}, 'budget_s': 200,
+                       'xsolver_cap': 0})
     for kind, cfg in out:
         jid = kind + '|' + '|'.join(f'{k}={cfg[k]}' for k in sorted(cfg))
         j = {'id': jid.replace(' ', ''), 'harness': f'vk.kernels.c17:{kind}', 'params': {'cfg': cfg}, 'budget_s': 300}
